@@ -153,6 +153,13 @@ func (n *Net) OpenServerEnds() int {
 	return c
 }
 
+// Listening reports whether addr has an open listener.
+func (n *Net) Listening(addr string) bool {
+	n.mu.Lock()
+	defer n.mu.Unlock()
+	return n.listeners[addr] != nil
+}
+
 // Kill closes the listener of addr (if any) and resets every connection to it.
 func (n *Net) Kill(addr string) {
 	n.mu.Lock()
